@@ -1,6 +1,7 @@
 package main
 
 import (
+	"encoding/json"
 	"fmt"
 	"os"
 	"os/exec"
@@ -30,6 +31,27 @@ func init() {
 			c19Run(c)
 		},
 		WorkerBin: vmc19Path,
+		Replay: func(rec map[string]any) {
+			if rec["kind"] != "schedule" {
+				fmt.Printf("record: %v\n", rec["desc"])
+				return
+			}
+			if err := checks["C19"].Prepare(); err != nil {
+				fmt.Println(err)
+				os.Exit(2)
+			}
+			b, _ := json.Marshal(rec)
+			f, _ := os.CreateTemp("", "c19replay-*.json")
+			f.Write(b)
+			f.Close()
+			defer os.Remove(f.Name())
+			cmd := exec.Command(vmc19Path, "c19replay", f.Name())
+			cmd.Stdout, cmd.Stderr = os.Stdout, os.Stderr
+			if err := cmd.Run(); err != nil {
+				os.Remove(f.Name())
+				os.Exit(1)
+			}
+		},
 		Prepare: func() error {
 			globals, err := instrumentTree(ov19Dir)
 			if err != nil {
